@@ -91,7 +91,7 @@ def c07(tier, hook=None):
     mods = [(i, rf.clone_module(i, list(g[0]), g[2], g[1], g[3], g[4], g[5])) for i, g in enumerate(guises)]
     # seeded histories (stateful validation of longer runs)
     rnd = random.Random(dx.seed())
-    nh = 40 if tier == "quick" else 400
+    nh = 40 if tier == "quick" else 2000
     hist = []
     for h in range(nh):
         sh = list(rnd.choice(shapes))
@@ -332,8 +332,15 @@ def debug_descs(tier, rnd):
                     dbgs = list(others)
                     dbgs[tpos] = "transparent"
                     descs.append({"kind": "struct", "variants": [{"name": "S%d" % len(descs), "shape": shape, "fields": fields(n, shape, dbgs)}]})
+    if tier == "thorough":
+        # every assignment of {none, ignore, transparent} to up to 3 fields (two transparent ones are refused: handled in-process below)
+        for shape in ("tuple", "named"):
+            for n in (1, 2, 3):
+                for dbgs in itertools.product(["none", "ignore", "transparent"], repeat=n):
+                    if list(dbgs).count("transparent") == 1:
+                        descs.append({"kind": "struct", "variants": [{"name": "S%d" % len(descs), "shape": shape, "fields": fields(n, shape, dbgs)}]})
     # enums mixing variant kinds
-    for k in range(12 if tier == "quick" else 80):
+    for k in range(12 if tier == "quick" else 400):
         vs = []
         for vi in range(rnd.choice([1, 2, 3, 4])):
             shape = rnd.choice(["unit", "tuple", "named"])
@@ -462,7 +469,7 @@ def c11(tier, hook=None):
     rnd = random.Random(dx.seed())
     descs = default_descs(tier, rnd)
     if tier == "thorough":
-        for s in range(4):
+        for s in range(12):
             descs += default_descs(tier, random.Random(dx.seed() * 77 + s))
     # in-process: which are rejected by derive_ex itself
     cases = []
@@ -591,7 +598,7 @@ def c12(tier, hook=None):
     ck = hook["ck"] if hook else dx.Check("C12", tier)
     T = (hook or {}).get("transform") or (lambda ms: ms)
     rnd = random.Random(dx.seed())
-    N = 150 if tier == "quick" else 1500
+    N = 150 if tier == "quick" else 4000
     mods, meta = [], []
     for k in range(N):
         d = rf.c12_random(rnd, k)
